@@ -629,6 +629,8 @@ class ArrayMapper(Mapper):
         params = {
             "uniqueItems": schema.get("uniqueItems", None),
             "additionalItems": schema.get("additionalItems", None),
+            "minItems": schema.get("minItems", None),
+            "maxItems": schema.get("maxItems", None),
             "items": convert_to_field_code(items, definitions),
         }
         return list((k, v) for k, v in params.items() if v is not None)
